@@ -13,6 +13,7 @@ CONSTANT Lenient = FALSE
 CONSTANT Snonce = "fresh"
 CONSTANT ApKnownFirst = FALSE
 CONSTANT Record = TRUE
+CONSTANT MinLen = 10
 CONSTANT MaxLen = 26
 CONSTRAINT Emit
 CHECK_DEADLOCK FALSE
